@@ -34,7 +34,8 @@
 (* a deposit or vote rights, and cancelling a producer whose deposit was   *)
 (* returned.  Such blocks are the named deviations: they are logged with   *)
 (* dev = TRUE and NOT applied; the driver shows on the real code whether   *)
-(* they are accepted and what balances result.                             *)
+(* they are accepted and what balances result.  A third named deviation:   *)
+(* blocks that change the status of one producer twice (see Taint).        *)
 (***************************************************************************)
 EXTENDS Integers, Sequences, FiniteSets, TLC, Json
 
@@ -175,9 +176,10 @@ Offers(S_, h) ==
    \cup {It("Unvote1", "-", a, 0, 0) : a \in IF "Unvote1" \in Kinds THEN A ELSE {}}
    \cup {It("Stake", "-", a, x, 0) : a \in IF "Stake" \in Kinds THEN A ELSE {}, x \in StakeAmts}
    \cup {It("TopUp", p, "-", x, 0) : p \in IF "TopUp" \in Kinds THEN P ELSE {}, x \in TopUps}
-   \cup UNION {{It("Vote2", p, a, x, h + l) : p \in P, l \in LockSpans,
-                                              x \in VoteAmts \cup {S_.ad[a].rights - S_.ad[a].used,
-                                                                   S_.ad[a].rights - S_.ad[a].used + 1}}
+   \cup UNION {{It("Vote2", p, a, x, h + l) :
+                    p \in {q \in P : InMap(S_, q, "Active") /\ S_.pr[q].ident # "V1"}, l \in LockSpans,
+                    x \in VoteAmts \cup {S_.ad[a].rights - S_.ad[a].used,
+                                         S_.ad[a].rights - S_.ad[a].used + 1}}
                : a \in IF "Vote2" \in Kinds THEN A ELSE {}}
    \cup UNION {{It("RetVotes", "-", a, x, 0) :
                                               x \in VoteAmts \cup {S_.ad[a].rights - S_.ad[a].used,
@@ -188,7 +190,7 @@ Offers(S_, h) ==
                           y \in {0, InVal(S_.utxo[p], x) - Avail(S_.pr[p]),
                                     InVal(S_.utxo[p], x) - Avail(S_.pr[p]) - 1}}
                        : x \in 1..(2 ^ Len(S_.utxo[p]) - 1)}
-               : p \in IF "RetDep" \in Kinds THEN P ELSE {}}
+               : p \in IF "RetDep" \in Kinds THEN {q \in P : Exists(S_, q)} ELSE {}}
   IN {it \in all : \/ Pre(S_, h, it)
                    \/ /\ it.k = "Vote2" /\ it.x = S_.ad[it.a].rights - S_.ad[it.a].used + 1
                       /\ Vote2Shape(S_, h, it)          \* everything but the amount is in order
@@ -204,7 +206,7 @@ Compatible(a, b) ==
   /\ ~(a.k \in {"Reg", "Upd", "Can"} /\ b.k \in {"Reg", "Upd", "Can"} /\ a.p = b.p)
   /\ ~(a.k \in {"Vote1", "Unvote1"} /\ b.k \in {"Vote1", "Unvote1"} /\ a.a = b.a)
   /\ ~(a.k = "Sponsor" /\ b.k = "Sponsor")
-  /\ ~(a.k = "RetDep" /\ b.k = "RetDep" /\ a.p = b.p /\ \E i \in 1..MaxUtxo : Bit(a.x, i) /\ Bit(b.x, i))
+  /\ ~(a.k = "RetDep" /\ b.k = "RetDep" /\ a.p = b.p /\ \E i \in 1..(MaxUtxo + 4) : Bit(a.x, i) /\ Bit(b.x, i))
   /\ ~(a.k = "Renew" /\ b.k = "Renew" /\ a.x = b.x)
   /\ ~(a.k \in {"ToPOW", "ToDPOS"} /\ b.k = a.k)
   /\ a # b
@@ -246,7 +248,7 @@ ItemCh(S_, h, it, vid) ==
     [] it.k = "Act" -> IF Exists(S_, it.p) THEN <<Ch("actreq", it.p, "-", 0, 0, [actReq |-> r.actReq])>> ELSE <<>>
     [] it.k = "Vote1" ->
          \* processVotes: the vote output is recorded; the producer is credited if it exists now
-         <<Ch("v1add", it.p, it.a, IF Exists(S_, it.p) THEN V1Amt ELSE 0, 0, NoO)>>
+         <<Ch("v1add", it.p, it.a, IF Exists(S_, it.p) THEN V1Amt ELSE 0, 0, [v1 |-> S_.v1[it.a]])>>
     [] it.k = "Unvote1" ->
          LET q == S_.v1[it.a].p IN
          <<Ch("v1sub", q, it.a, IF Exists(S_, q) THEN V1Amt ELSE 0, 0, NoO)>>
@@ -415,8 +417,7 @@ Un(S_, c) ==
                                ELSE IF c.o.st \in {"Active", "Inactive"} THEN ((@ \cup {c.o.st}) \ {"Canceled"})
                                ELSE @ \ {"Canceled"}])
     [] c.k = "actreq"   -> SP([r EXCEPT !.actReq = c.o.actReq])
-    [] c.k = "v1add"    -> [SP([r EXCEPT !.votes = @ - c.x]) EXCEPT
-                              !.v1[c.a] = [p |-> "-", live |-> FALSE, counted |-> FALSE]]
+    [] c.k = "v1add"    -> [SP([r EXCEPT !.votes = @ - c.x]) EXCEPT !.v1[c.a] = c.o.v1]
     [] c.k = "v1sub"    -> [SP([r EXCEPT !.votes = @ + c.x]) EXCEPT !.v1[c.a].live = TRUE]
     [] c.k = "stake"    -> [S_ EXCEPT !.ad[c.a].rights = @ - c.x]
     [] c.k = "v2used"   -> [S_ EXCEPT !.ad[c.a].used = @ - c.x]
@@ -504,6 +505,19 @@ Changes2Utxo(U0, txs) ==
         ELSE Keep(SubSeq(U1[p], 1, Len(U0[p])), m, 1) \o SubSeq(U1[p], Len(U0[p]) + 1, Len(U1[p]))
              \o [i \in 1..Len(ch) |-> ch[i].y]]
 
+\* Two status changes of one producer in one block (two transactions, or a transaction
+\* and an automatic change such as the activation after six blocks) are both decided
+\* against the pre-block state and then executed one after the other; the producer
+\* can end up in two producer maps and the rollback closures (which restore
+\* pre-block values) no longer invert what follows; an expired v2 producer listed in two
+\* maps is canceled twice and its locked deposit goes negative.  Recorded finding; such
+\* blocks are a named deviation (why = "two-status-changes"): logged, not applied, and
+\* shown on the real code by the driver.
+StatusCh(c) == \/ c.k \in {"cancel", "illegalA", "illegalI", "illegalL", "illegalC", "emerg",
+                           "promoteP", "promoteI", "promoteL", "expProd"}
+               \/ (c.k = "spMiss" /\ c.o.cnt + 1 >= MaxInactive)
+Taint(cs) == {p \in P : Cardinality({i \in 1..Len(cs) : cs[i].p = p /\ StatusCh(cs[i])}) >= 2}
+
 \* C28 on the combined effect of a block (S1 -> S2)
 BalanceBad(S1, S2) ==
   \/ \E p \in P : S2.pr[p].total < S1.pr[p].total /\ Avail(S2.pr[p]) < 0
@@ -524,40 +538,44 @@ Proj(S_) == [pr |-> [p \in P |-> [st |-> S_.pr[p].st, maps |-> S_.pr[p].maps, id
 Init == /\ S = S0 /\ height = 0 /\ snaps = <<S0>> /\ hist = <<>>
         /\ nid = 1 /\ nrb = 0 /\ rbOK = TRUE /\ log = <<>>
 
+\* (\E x \in {e} : ... binds e once: TLC would re-evaluate a LET definition at every use)
 BlockStep(items) ==
   LET h   == height + 1
       txs == TxItems(items)
-      pre == \A i \in 1..Len(items) : Pre(S, h, items[i])
-      cs  == Changes(S, h, items)
-      S2  == [Commit(S, cs, h) EXCEPT !.utxo = Changes2Utxo(S.utxo, txs)]
-      dev == pre /\ (BalanceBad(S, S2) \/ \E i \in 1..Len(items) : Forbidden(S, items[i]))
-      ok  == pre /\ ~dev
   IN /\ h <= MaxH /\ Len(log) < SimLen
      /\ \A i, j \in 1..Len(items) : i < j => Compatible(items[i], items[j])
-     /\ (~pre => Len(items) = 1)           \* a rejected request is tried alone
-     /\ IF ok
-        THEN /\ S' = S2 /\ height' = h
-             /\ snaps' = Append(snaps, S2) /\ hist' = Append(hist, cs)
-             /\ nid' = nid + Len(txs)
-        ELSE UNCHANGED <<S, height, snaps, hist, nid>>
-     /\ rbOK' = TRUE
-     /\ UNCHANGED nrb
-     /\ log' = Append(log, [act |-> "Block", h |-> h, items |-> items, nid |-> nid,
-                            pre |-> pre, dev |-> dev, applied |-> ok,
-                            st |-> Proj(IF ok THEN S2 ELSE S)])
+     /\ \E pre \in {\A i \in 1..Len(items) : Pre(S, h, items[i])} :
+        /\ (~pre => Len(items) = 1)           \* a rejected request is tried alone
+        /\ \E cs \in {IF pre THEN Changes(S, h, items) ELSE <<>>} :
+           \E S2 \in {IF pre THEN [Commit(S, cs, h) EXCEPT !.utxo = Changes2Utxo(S.utxo, txs)] ELSE S} :
+           \E why \in {IF ~pre THEN "rejected"
+                       ELSE IF Taint(cs) # {} THEN "two-status-changes"
+                       ELSE IF \E i \in 1..Len(items) : Forbidden(S, items[i]) THEN "forbidden"
+                       ELSE IF BalanceBad(S, S2) THEN "balance" ELSE ""} :
+           \E dev \in {pre /\ why # ""} :
+             /\ IF pre /\ ~dev
+                THEN /\ S' = S2 /\ height' = h
+                     /\ snaps' = Append(snaps, S2) /\ hist' = Append(hist, cs)
+                     /\ nid' = nid + Len(txs)
+                ELSE UNCHANGED <<S, height, snaps, hist, nid>>
+             /\ rbOK' = TRUE
+             /\ UNCHANGED nrb
+             /\ log' = Append(log, [act |-> "Block", h |-> h, items |-> items, nid |-> nid,
+                                    pre |-> pre, dev |-> dev, why |-> why, applied |-> (pre /\ ~dev),
+                                    st |-> Proj(IF pre /\ ~dev THEN S2 ELSE S)])
 
-Blocks(h) ==
+Blocks(h, O) ==
   IF h <= Len(Prelude) THEN {Prelude[h]}
-  ELSE LET O == Offers(S, h) IN
-       {<<>>} \cup {<<a>> : a \in O}
+  ELSE {<<>>} \cup {<<a>> : a \in O}
        \cup (IF MaxItems >= 2 THEN UNION {{<<a, b>> : b \in {c \in O : Interact(a, c)}} : a \in O} ELSE {})
 
-Block == \E items \in Blocks(height + 1) : BlockStep(items)
+Block == \E O \in {IF height + 1 <= Len(Prelude) THEN {} ELSE Offers(S, height + 1)} :
+           \E items \in Blocks(height + 1, O) : BlockStep(items)
 
 RollbackTo(t) ==
   /\ nrb < MaxRollbacks /\ Len(log) < SimLen /\ t < height /\ t >= height - RollbackSpan /\ t >= Len(Prelude)
-  /\ LET mech == UndoTo(S, hist, t)              \* what the code's closures produce
-         direct == snaps[t + 1]                   \* what C21 demands
+  /\ \E mech \in {UndoTo(S, hist, t)} :            \* what the code's closures produce
+     LET direct == snaps[t + 1]                   \* what C21 demands
          exact == [mech EXCEPT !.utxo = direct.utxo] = direct
      IN /\ S' = direct
         /\ rbOK' = (exact \/ \E i \in (t + 1)..Len(hist) : \E j \in 1..Len(hist[i]) : hist[i][j].k \in Tolerate)
